@@ -15,6 +15,7 @@ import (
 	ledger "github.com/formancehq/ledger/internal"
 	ledgercontroller "github.com/formancehq/ledger/internal/controller/ledger"
 	"github.com/formancehq/ledger/internal/verifh/pgsem"
+	"github.com/formancehq/ledger/pkg/features"
 )
 
 func pgsemText(v pgsem.Value) string { return pgsem.TextOf(v) }
@@ -62,10 +63,13 @@ func histCaseSx(f Feat, ops []Op) string {
 }
 
 // newHistRun opens a fresh stack with one ledger; Step executes one operation and snapshots the ledger
-func newHistRun(f Feat, listener bool) *HistRun {
+func newHistRun(f Feat, listener bool) *HistRun { return newHistRunFS(f, f.set(), listener) }
+
+// newHistRunFS: same with an explicit feature set (HASH_LOGS has three values); f tells the reads which expands exist
+func newHistRunFS(f Feat, fs features.FeatureSet, listener bool) *HistRun {
 	st := NewStack(StackOpts{Listener: listener})
 	hr := &HistRun{Feat: f, St: st, ctx: context.Background()}
-	if err := st.Sys.CreateLedger(hr.ctx, "l1", ledger.Configuration{Bucket: "_default", Features: f.set()}); err != nil {
+	if err := st.Sys.CreateLedger(hr.ctx, "l1", ledger.Configuration{Bucket: "_default", Features: fs}); err != nil {
 		panic(fmt.Errorf("create ledger: %w", err))
 	}
 	ctrl, err := st.Sys.GetLedgerController(hr.ctx, "l1")
